@@ -10,6 +10,7 @@ import (
 	"strconv"
 	"strings"
 	"sync"
+	"sync/atomic"
 	"time"
 
 	"github.com/scrapli/scrapligo/channel"
@@ -34,6 +35,9 @@ const (
 	c05Watchdog = 6 * time.Second
 	c05Long     = 2 * time.Second
 )
+
+// groups (kind, variant) in which confirmed hangs were seen; after two the sweep stops (verdict clear)
+var c05hangGroups int
 
 var c05kinds = []string{"si", "gp", "ia", "au", "he", "rp", "cb", "nw"}
 
@@ -643,6 +647,23 @@ func c05modelLine(cs c05case, e *c05env, ref *c05ref, per [][][]byte) string {
 	return strings.Join(f, " ")
 }
 
+// c05reached: the device got as far as the intended stall point (otherwise the machine was too
+// slow for this timeout and the case did not realise the schedule "bytes 0..k, then silence")
+func c05reached(ref *c05ref, cs c05case, o c05obs) bool {
+	n := 0
+	for _, sz := range o.readLog {
+		n += sz
+	}
+	want := cs.k
+	if want < 0 || want > ref.total {
+		want = ref.total
+	}
+	if o.class == "nil" {
+		return true
+	}
+	return n >= want
+}
+
 func c05stalledPhase(ref *c05ref, k int) int {
 	ph := 0
 	for i, s := range ref.starts {
@@ -796,20 +817,42 @@ func c05check(c *ctx, ref *c05ref, cases []c05case) {
 	if kind == "cb" {
 		conc = 8 // the callback reader spins without sleeping
 	}
+	if c05hangGroups >= 2 {
+		res.Count("groups-skipped-after-confirmed-hangs")
+		return
+	}
 	obs := make([]c05obs, len(cases))
 	runAll := func(idx []int) {
-		var wg sync.WaitGroup
-		sem := make(chan struct{}, conc)
-		for _, i := range idx {
-			wg.Add(1)
-			sem <- struct{}{}
-			go func(i int) {
-				defer wg.Done()
-				obs[i] = c05run(cases[i], recoverFrom)
-				<-sem
-			}(i)
+		// in waves, so that a group in which everything hangs costs one watchdog period, not many
+		for len(idx) > 0 {
+			wave := idx
+			if len(wave) > conc {
+				wave = idx[:conc]
+			}
+			idx = idx[len(wave):]
+			var wg sync.WaitGroup
+			for _, i := range wave {
+				wg.Add(1)
+				go func(i int) {
+					defer wg.Done()
+					obs[i] = c05run(cases[i], recoverFrom)
+				}(i)
+			}
+			wg.Wait()
+			hangs := 0
+			for _, i := range wave {
+				if obs[i].hang {
+					hangs++
+				}
+			}
+			if hangs*2 > len(wave) {
+				for _, i := range idx {
+					obs[i].setupErr = "skipped"
+				}
+				res.Count("cases-skipped-after-hanging-wave")
+				return
+			}
 		}
-		wg.Wait()
 	}
 	all := make([]int, len(cases))
 	for i := range all {
@@ -824,18 +867,23 @@ func c05check(c *ctx, ref *c05ref, cases []c05case) {
 	}
 	for attempt := 0; attempt < 2; attempt++ {
 		var again []int
+		nh := 0
 		for i, cs := range cases {
 			o := obs[i]
 			if o.hang && o.setupErr == "" {
 				// a process-wide stall (loaded host) makes the watchdog win; a real hang hangs again
-				again = append(again, i)
+				// (two re-runs settle it for the whole group)
+				if nh < 2 {
+					again = append(again, i)
+				}
+				nh++
 				continue
 			}
 			if o.setupErr != "" || o.panicMsg != "" || (o.class != "timeout" && o.class != "privilege") {
 				continue
 			}
-			// too slow, or a complete exchange that ran out of time because the machine was slow
-			if o.elapsed > wantTOf(cs)+c05Slack || cs.k >= ref.total-1 {
+			// too slow, or the exchange ran out of time before the stall point because the machine was slow
+			if o.elapsed > wantTOf(cs)+c05Slack || cs.k >= ref.total-1 || !c05reached(ref, cs, o) {
 				again = append(again, i)
 			}
 		}
@@ -856,6 +904,12 @@ func c05check(c *ctx, ref *c05ref, cases []c05case) {
 			}
 		}
 	}
+	groupHangs := 0
+	defer func() {
+		if groupHangs > 0 {
+			c05hangGroups++
+		}
+	}()
 	var lines []string
 	pers := make([][][][]byte, len(cases))
 	strad := make([]bool, len(cases))
@@ -873,6 +927,10 @@ func c05check(c *ctx, ref *c05ref, cases []c05case) {
 		res.Count("kind:" + cs.kind)
 		res.Count("setting:" + cs.setting)
 		res.Count(fmt.Sprintf("seg:%d", cs.seg))
+		if o.setupErr == "skipped" {
+			res.Count("skipped:" + cs.kind)
+			continue
+		}
 		if o.setupErr != "" {
 			res.Fail("oracle", cl, "could not reach the operation: "+o.setupErr, "setup-failed:"+cs.kind)
 			continue
@@ -890,6 +948,7 @@ func c05check(c *ctx, ref *c05ref, cases []c05case) {
 		}
 		// never a hang, never a panic (these gate whatever the model says)
 		if o.hang {
+			groupHangs++
 			res.Fail("oracle", cl, fmt.Sprintf("%s did not return within %v (stall at byte %d of %d)", c05kindName[cs.kind], c05Watchdog, cs.k, ref.total), "hang:"+cs.kind)
 			continue
 		}
@@ -899,6 +958,15 @@ func c05check(c *ctx, ref *c05ref, cases []c05case) {
 		}
 		if !a.dom {
 			res.Count("nodom:" + cs.kind)
+			continue
+		}
+		if !c05reached(ref, cs, o) {
+			// three runs never got to the stall point within the timeout: outside the quantifier
+			// (the schedule is not "bytes 0..k then silence") -- unless the operation gave up early
+			if wt := e.wantT(c05stalledPhase(ref, cs.k)); o.elapsed < wt-c05Early {
+				res.Fail("oracle", cl, fmt.Sprintf("%s gave up after %v, before the timeout in force %v and before the device stalled", c05kindName[cs.kind], o.elapsed, wt), "early-timeout:"+cs.kind)
+			}
+			res.Count("stall-not-reached:" + cs.kind)
 			continue
 		}
 		res.InDomain++
@@ -1102,6 +1170,7 @@ func c05f12run(c *ctx, n int) {
 		sig, detail string
 	}
 	outs := make([]out, n)
+	var nbad int32 // a dozen failures settle the verdict: do not pay for thousands of hanging attempts
 	var wg sync.WaitGroup
 	sem := make(chan struct{}, c05f12conc())
 	for i := 0; i < n; i++ {
@@ -1110,6 +1179,15 @@ func c05f12run(c *ctx, n int) {
 		go func(i int) {
 			defer wg.Done()
 			defer func() { <-sem }()
+			if atomic.LoadInt32(&nbad) >= 12 {
+				outs[i] = out{"skipped", ""}
+				return
+			}
+			defer func() {
+				if outs[i].sig != "" {
+					atomic.AddInt32(&nbad, 1)
+				}
+			}()
 			dev := c05cli("priv")
 			d, err := generic.NewDriver("h", options.WithCustomTransport(dev), options.WithAuthBypass(),
 				options.WithTimeoutOps(3*time.Second), options.WithReadDelay(c05RD))
@@ -1164,6 +1242,10 @@ func c05f12run(c *ctx, n int) {
 	wg.Wait()
 	bad := 0
 	for i, o := range outs {
+		if o.sig == "skipped" {
+			res.Count("cb-after-return-skipped")
+			continue
+		}
 		res.Case(fmt.Sprintf("f12/%d", i), true)
 		res.InDomain++
 		res.Count("kind:cb-after-return")
